@@ -1,1 +1,302 @@
-/-! # C05 — property theorems (not built yet) -/
+import PysphVerif.Lemmas.Determinism
+import PysphVerif.Gen.C05Discipline
+/-!
+# C05 — results do not depend on neighbour algorithm, cache, threads or re-ordering
+
+Property theorems only.  They are about `Model/Determinism.lean` (the generated
+pair loop of `acceleration_eval_cython.mako` as micro-steps "row `dst` absorbs
+row `src`", threads as per-thread programs, a schedule as ANY partition of the
+destinations among threads plus ANY interleaving, `_sort_neighbors`,
+`spatially_order_particles`), and about the table of read/write sets that
+`translate/c05_rw_sets.py` extracts from every shipped `Equation` subclass
+(`Gen/C05Discipline.lean`).
+
+All statements hold for every row type `ρ`, every pair function `f`, every state,
+every neighbour function, every number of threads, every partition and every
+interleaving (no size bounds).  What is NOT covered: IEEE rounding (equality "up
+to summation order" is equality for a right-commutative `f`, i.e. in an exact
+field), OpenMP's memory model, and whether each NNPS returns the exact neighbour
+set (that is C01) - here it is the hypothesis `(nb₁ i).Perm (nb₂ i)`.
+-/
+set_option linter.unusedSectionVars false
+namespace PysphVerif.C05
+open PysphVerif.Determinism
+
+variable {ρ κ : Type}
+
+/-! ## threads: any partition, any interleaving -/
+
+/-- **Schedule independence.**  If the pair function keeps the own-row discipline
+(it reads of the source row only a part that no loop body writes), then for every
+assignment of destinations to threads (each destination handed out at most once)
+and every interleaving of the threads' micro-steps, the parallel loop leaves
+exactly the state of the sequential reference: each destination row is the fold
+over its neighbour list, in list order, reading the state before the loop. -/
+theorem own_row_schedule_independence {f : ρ → ρ → ρ} {rd : ρ → κ} (D : Discipline f rd)
+    (nb : Nat → List Nat) (parts : List (List Nat)) (sched : List Nat) (st : List ρ)
+    (hpart : parts.flatten.Nodup) :
+    runLoop f nb parts sched st = evalAll f nb parts.flatten st := by
+  apply List.ext_getElem?
+  intro i
+  unfold runLoop evalAll
+  rw [run_getElem? D, List.getElem?_mapIdx,
+    rowOf_interleave (ownerOf parts) i _ sched (owned_threadProgs nb parts hpart),
+    rowOf_owner nb parts hpart i]
+  congr 1
+  funext r
+  unfold evalAt
+  by_cases hin : i ∈ parts.flatten
+  · simp only [hin, if_true, rowOps, List.foldl_map, evalRow, absorbOp]
+  · simp only [hin, if_false, List.foldl_nil]
+
+/-- the reference semantics depends on the destinations only as a set -/
+theorem evalAll_congr_dests (f : ρ → ρ → ρ) (nb : Nat → List Nat) (d₁ d₂ : List Nat)
+    (st : List ρ) (h : ∀ i, i ∈ d₁ ↔ i ∈ d₂) : evalAll f nb d₁ st = evalAll f nb d₂ st := by
+  unfold evalAll
+  congr 1
+  funext i r
+  unfold evalAt
+  by_cases h1 : i ∈ d₁
+  · simp only [h1, (h i).mp h1, if_true]
+  · have h2 : i ∉ d₂ := fun h2 => h1 ((h i).mpr h2)
+    simp only [h1, h2, if_false]
+
+/-- **Thread count, OpenMP on/off, chunking and timing are irrelevant**: two runs of
+the same loop with different numbers of threads (`parts₁.length`, `parts₂.length`;
+a serial run is one thread), different hand-outs of the same destinations and
+different interleavings end in the same state. -/
+theorem thread_configuration_irrelevant {f : ρ → ρ → ρ} {rd : ρ → κ} (D : Discipline f rd)
+    (nb : Nat → List Nat) (parts₁ parts₂ : List (List Nat)) (sched₁ sched₂ : List Nat)
+    (st : List ρ) (h₁ : parts₁.flatten.Nodup) (h₂ : parts₂.flatten.Nodup)
+    (hsame : parts₁.flatten.Perm parts₂.flatten) :
+    runLoop f nb parts₁ sched₁ st = runLoop f nb parts₂ sched₂ st := by
+  rw [own_row_schedule_independence D nb parts₁ sched₁ st h₁,
+    own_row_schedule_independence D nb parts₂ sched₂ st h₂]
+  exact evalAll_congr_dests f nb _ _ st (fun i => hsame.mem_iff)
+
+/-- Without the discipline the claim is false: a pair function that reads what the
+loop writes gives different states under two interleavings of two threads. -/
+theorem schedule_matters_without_discipline :
+    ∃ (f : Nat → Nat → Nat) (nb : Nat → List Nat) (parts : List (List Nat))
+      (s₁ s₂ : List Nat) (st : List Nat),
+      parts.flatten.Nodup ∧ runLoop f nb parts s₁ st ≠ runLoop f nb parts s₂ st :=
+  ⟨fun r s => r + s, fun i => if i = 0 then [1] else [0], [[0], [1]], [0, 1], [1, 0], [1, 2],
+    by decide, by decide⟩
+
+/-! ## neighbour algorithm and cache: only the neighbour SET matters -/
+
+/-- **Sorted neighbours: bit-identical.**  Two neighbour searches (different NNPS
+classes, cache on or off) that return the same neighbour set for every destination,
+in whatever order, give the same state once the lists are sorted by a key that is
+distinct on each list (`--sort-gids`) - for ANY pair function, commutative or not,
+so also in floating point. -/
+theorem eval_depends_on_nbr_set_when_sorted (f : ρ → ρ → ρ) (key : Nat → Nat)
+    (nb₁ nb₂ : Nat → List Nat) (dests : List Nat) (st : List ρ)
+    (hset : ∀ i ∈ dests, (nb₁ i).Perm (nb₂ i))
+    (hkey : ∀ i ∈ dests, ∀ a ∈ nb₁ i, ∀ b ∈ nb₁ i, key a = key b → a = b) :
+    evalAll f (fun i => sortNbrs key (nb₁ i)) dests st =
+      evalAll f (fun i => sortNbrs key (nb₂ i)) dests st := by
+  unfold evalAll
+  congr 1
+  funext i r
+  unfold evalAt
+  by_cases h : i ∈ dests
+  · simp only [h, if_true, sortNbrs_eq_of_perm key _ _ (hset i h) (hkey i h)]
+  · simp only [h, if_false]
+
+/-- the two previous results together: with sorted neighbours the state after a loop
+is the same for every exact neighbour search, every thread count, every hand-out and
+every interleaving -/
+theorem sorted_loop_configuration_independent {f : ρ → ρ → ρ} {rd : ρ → κ}
+    (D : Discipline f rd) (key : Nat → Nat) (nb₁ nb₂ : Nat → List Nat)
+    (parts₁ parts₂ : List (List Nat)) (sched₁ sched₂ : List Nat) (st : List ρ)
+    (h₁ : parts₁.flatten.Nodup) (h₂ : parts₂.flatten.Nodup)
+    (hsame : parts₁.flatten.Perm parts₂.flatten)
+    (hset : ∀ i ∈ parts₁.flatten, (nb₁ i).Perm (nb₂ i))
+    (hkey : ∀ i ∈ parts₁.flatten, ∀ a ∈ nb₁ i, ∀ b ∈ nb₁ i, key a = key b → a = b) :
+    runLoop f (fun i => sortNbrs key (nb₁ i)) parts₁ sched₁ st =
+      runLoop f (fun i => sortNbrs key (nb₂ i)) parts₂ sched₂ st := by
+  rw [own_row_schedule_independence D _ parts₁ sched₁ st h₁,
+    own_row_schedule_independence D _ parts₂ sched₂ st h₂,
+    eval_depends_on_nbr_set_when_sorted f key nb₁ nb₂ _ st hset hkey]
+  exact evalAll_congr_dests f _ _ _ st (fun i => hsame.mem_iff)
+
+/-- **Unsorted neighbours: equal up to summation order.**  If absorbing two sources
+commutes (sums in an exact field), the order in which a neighbour search lists the
+neighbours does not matter either. -/
+theorem eval_indep_of_nbr_order_of_comm {f : ρ → ρ → ρ}
+    (hcomm : ∀ r a b, f (f r a) b = f (f r b) a) (nb₁ nb₂ : Nat → List Nat) (dests : List Nat)
+    (st : List ρ) (hset : ∀ i ∈ dests, (nb₁ i).Perm (nb₂ i)) :
+    evalAll f nb₁ dests st = evalAll f nb₂ dests st := by
+  unfold evalAll
+  congr 1
+  funext i r
+  unfold evalAt
+  by_cases h : i ∈ dests
+  · simp only [h, if_true, evalRow_perm hcomm st r (hset i h)]
+  · simp only [h, if_false]
+
+/-! ## re-ordering -/
+
+/-- **Permutation equivariance.**  Re-order the particles (`new[k] = old[idx[k]]` for
+every property) and let the neighbour search on the re-ordered arrays return, for
+new index `k`, the re-labelled neighbours of old index `idx[k]` in any order.  Then
+evaluating the loop on the re-ordered state is the re-ordering of the evaluation on
+the original state: the same value per particle identity, as multisets of summands
+(`hcomm`: exact field). -/
+theorem perm_equivariance {f : ρ → ρ → ρ} (hcomm : ∀ r a b, f (f r a) b = f (f r b) a)
+    (idx : List Nat) (st : List ρ) (hin : ∀ j ∈ idx, j < st.length)
+    (nb nb' : Nat → List Nat) (dests dests' : List Nat)
+    (hrange : ∀ k, ∀ a ∈ nb' k, a < idx.length)
+    (hnb : ∀ k j, idx[k]? = some j → ((nb' k).filterMap (fun a => idx[a]?)).Perm (nb j))
+    (hd : ∀ k j, idx[k]? = some j → (k ∈ dests' ↔ j ∈ dests)) :
+    evalAll f nb' dests' (gather idx st) = gather idx (evalAll f nb dests st) := by
+  have hin' : ∀ j ∈ idx, j < (evalAll f nb dests st).length := by
+    intro j hj; simpa [evalAll] using hin j hj
+  apply List.ext_getElem?
+  intro k
+  rw [gather_getElem? idx _ hin' k]
+  unfold evalAll
+  rw [List.getElem?_mapIdx, gather_getElem? idx st hin k]
+  cases hk : idx[k]? with
+  | none => rfl
+  | some j =>
+    have hj : j < st.length := hin j (List.mem_of_getElem? hk)
+    simp only [Option.bind_some, List.getElem?_mapIdx, List.getElem?_eq_getElem hj,
+      Option.map_some]
+    congr 1
+    unfold evalAt
+    by_cases h : j ∈ dests
+    · have h' : k ∈ dests' := (hd k j hk).mpr h
+      simp only [h, h', if_true]
+      rw [evalRow_gather f idx st hin _ _ (hrange k)]
+      exact evalRow_perm hcomm st _ (hnb k j hk)
+    · have h' : k ∉ dests' := fun e => h ((hd k j hk).mp e)
+      simp only [h, h', if_false]
+
+/-- **Re-ordering with sorted neighbours: bit-identical.**  If neighbours are sorted
+by a key that travels with the particle (`key' a = key idx[a]`, the gid) and is
+distinct on each list, the fold order per particle identity is the same before and
+after the re-ordering, so no commutativity is needed. -/
+theorem sorted_order_travels_with_particles (key key' : Nat → Nat) (idx : List Nat)
+    (l' l : List Nat)
+    (hkey : ∀ a j, idx[a]? = some j → key' a = key j)
+    (hp : (l'.filterMap (fun a => idx[a]?)).Perm l)
+    (hinj : ∀ a ∈ l, ∀ b ∈ l, key a = key b → a = b) :
+    (sortNbrs key' l').filterMap (fun a => idx[a]?) = sortNbrs key l := by
+  unfold sortNbrs
+  have p' := List.mergeSort_perm l' (keyLe key')
+  have p := List.mergeSort_perm l (keyLe key)
+  have s' := List.pairwise_mergeSort (keyLe_trans key') (keyLe_total key') l'
+  have s := List.pairwise_mergeSort (keyLe_trans key) (keyLe_total key) l
+  have hperm : ((l'.mergeSort (keyLe key')).filterMap (fun a => idx[a]?)).Perm
+      (l.mergeSort (keyLe key)) := ((p'.filterMap _).trans hp).trans p.symm
+  have hsorted : List.Pairwise (fun a b => keyLe key a b = true)
+      ((l'.mergeSort (keyLe key')).filterMap (fun a => idx[a]?)) := by
+    rw [List.pairwise_filterMap]
+    refine s'.imp ?_
+    intro a b hab ja hja jb hjb
+    simp only [keyLe, decide_eq_true_eq] at hab ⊢
+    rw [← hkey a ja hja, ← hkey b jb hjb]
+    exact hab
+  refine List.Perm.eq_of_pairwise ?_ hsorted s hperm
+  intro a b ha hb hab hba
+  have ha' : a ∈ l := p.mem_iff.mp (hperm.mem_iff.mp ha)
+  have hb' : b ∈ l := p.mem_iff.mp hb
+  apply hinj a ha' b hb'
+  simp only [keyLe, decide_eq_true_eq] at hab hba
+  omega
+
+/-! ## whole simulations -/
+
+/-- the pair function keeps the discipline for some choice of "readable part" -/
+def Disciplined (f : ρ → ρ → ρ) : Prop := ∃ (κ : Type) (rd : ρ → κ), Discipline f rd
+
+/-- two configurations of one loop that the property regards as "the same simulation":
+both hand out the same destinations (each once), and the two neighbour searches agree
+on every neighbour SET; keys are distinct on every list -/
+def CfgEquiv (key : Nat → Nat) (c₁ c₂ : LoopCfg) : Prop :=
+  c₁.parts.flatten.Nodup ∧ c₂.parts.flatten.Nodup ∧ c₁.parts.flatten.Perm c₂.parts.flatten ∧
+    (∀ i ∈ c₁.parts.flatten, (c₁.nb i).Perm (c₂.nb i)) ∧
+    (∀ i ∈ c₁.parts.flatten, ∀ a ∈ c₁.nb i, ∀ b ∈ c₁.nb i, key a = key b → a = b)
+
+/-- stage by stage: the same pair function under equivalent configurations -/
+def StagesEquiv (key : Nat → Nat) :
+    List ((ρ → ρ → ρ) × LoopCfg) → List ((ρ → ρ → ρ) × LoopCfg) → Prop
+  | [], [] => True
+  | a :: l₁, b :: l₂ => a.1 = b.1 ∧ CfgEquiv key a.2 b.2 ∧ StagesEquiv key l₁ l₂
+  | _, _ => False
+
+/-- **A whole simulation with sorted neighbours is configuration independent.**  Any
+number of loops (all equations, all stages, all time steps), each run under its own
+neighbour search, thread count, hand-out and interleaving: if stage by stage the two
+runs use the same pair function and equivalent configurations, the final states are
+identical - for any pair functions, so bit for bit. -/
+theorem sorted_simulation_configuration_independent (key : Nat → Nat)
+    (s₁ s₂ : List ((ρ → ρ → ρ) × LoopCfg)) (st : List ρ)
+    (hdisc : ∀ x ∈ s₁, Disciplined x.1) (heq : StagesEquiv key s₁ s₂) :
+    runStages key s₁ st = runStages key s₂ st := by
+  induction s₁ generalizing s₂ st with
+  | nil =>
+    cases s₂ with
+    | nil => rfl
+    | cons b l₂ => simp [StagesEquiv] at heq
+  | cons a l₁ ih =>
+    cases s₂ with
+    | nil => simp [StagesEquiv] at heq
+    | cons b l₂ =>
+      obtain ⟨f, c₁⟩ := a
+      obtain ⟨g, c₂⟩ := b
+      simp only [StagesEquiv] at heq
+      obtain ⟨hfg, ⟨h₁, h₂, hsame, hset, hkey⟩, hrest⟩ := heq
+      subst hfg
+      obtain ⟨κ, rd, D⟩ := hdisc (f, c₁) (List.mem_cons_self ..)
+      simp only [runStages]
+      rw [sorted_loop_configuration_independent D key c₁.nb c₂.nb c₁.parts c₂.parts c₁.sched
+        c₂.sched st h₁ h₂ hsame hset hkey]
+      exact ih l₂ _ (fun x hx => hdisc x (List.mem_cons_of_mem _ hx)) hrest
+
+/-! ## the discipline table extracted from the shipped equations -/
+
+/-- **Every shipped equation keeps the own-row discipline** (or is one of the listed,
+reasoned exceptions): in every per-particle hook it writes destination properties
+only at `[d_idx]` (strided: within the row of `d_idx`), never writes a source
+property, and no `loop`-type hook reads from the source array a property that a
+`loop`-type hook of the same class writes on the destination.  The table is
+re-extracted from `/repo` on every run (`translate/c05_rw_sets.py`). -/
+theorem own_row_discipline_table :
+    PysphVerif.Gen.C05Discipline.table.all PysphVerif.Gen.C05Discipline.rowOk = true := by
+  decide +kernel
+
+/-- every exception that is tolerated is still an equation of the table that violates
+the syntactic rule - the exception list carries no stale names -/
+theorem exceptions_are_real :
+    PysphVerif.Gen.C05Discipline.exceptions.all
+      PysphVerif.Gen.C05Discipline.exceptionIsReal = true := by
+  decide +kernel
+
+/-! ## non-vacuity -/
+
+/-- a concrete discipline: rows `(payload, accumulator)`, `f` adds the source payload
+times ten into the accumulator - not commutative-insensitive data, real content -/
+example : Discipline (fun (r s : Nat × Nat) => (r.1, 10 * r.2 + s.1)) Prod.fst :=
+  ⟨fun _ _ _ h => by simp [h], fun _ _ => rfl⟩
+
+/-- a three-thread schedule with a non-trivial interleaving on five rows -/
+example :
+    runLoop (fun (r s : Nat × Nat) => (r.1, 10 * r.2 + s.1))
+      (fun i => if i = 0 then [1, 2, 4] else if i = 1 then [0, 3] else if i = 3 then [4, 0, 1] else [])
+      [[3], [0, 2], [1]] [1, 0, 2, 2, 1, 0, 0, 1, 7, 0] [(1, 0), (2, 0), (3, 0), (4, 0), (5, 0)]
+    = [(1, 235), (2, 14), (3, 0), (4, 512), (5, 0)] := by decide
+
+example : sortNbrs (fun j => 100 - j) [3, 9, 4, 7] = [9, 7, 4, 3] := by
+  simp [sortNbrs, List.mergeSort, keyLe, List.MergeSort.Internal.splitInTwo]
+
+/-- the hypotheses of `eval_depends_on_nbr_set_when_sorted` are satisfiable by lists
+in different orders -/
+example : sortNbrs (fun j => 100 - j) [3, 9, 4, 7] = sortNbrs (fun j => 100 - j) [7, 4, 3, 9] :=
+  sortNbrs_eq_of_perm _ _ _ (by decide) (by decide)
+
+example : gather [2, 0, 1] ["a", "b", "c"] = ["c", "a", "b"] := by decide
+
+end PysphVerif.C05
